@@ -206,10 +206,10 @@ Proof.
   destruct n as [|m]; [cbn [occn]; tauto|].
   assert (IH : forall j, (j <= m)%nat -> forall a b, In a (rchildren p) -> In b (rchildren q) ->
                  expr_eqb a b = true -> (occn B s j a <-> occn B s j b)).
-  { intros j Hj a b Ha Hb Hab. apply IHn; [lia| | |exact Hab]; eapply tree_ok_child; eauto. }
+  { intros j Hj a b Ha Hb Hab. apply IHn; [lia|eapply tree_ok_child; [exact Hp|exact Ha]|eapply tree_ok_child; [exact Hq|exact Hb]|exact Hab]. }
   assert (IH' : forall j, (j <= m)%nat -> forall a b, In a (rchildren p) -> In b (rchildren q) ->
                  expr_eqb b a = true -> (occn B s j a <-> occn B s j b)).
-  { intros j Hj a b Ha Hb Hab. symmetry. apply IHn; [lia| | |exact Hab]; eapply tree_ok_child; eauto. }
+  { intros j Hj a b Ha Hb Hab. symmetry. apply IHn; [lia|eapply tree_ok_child; [exact Hq|exact Hb]|eapply tree_ok_child; [exact Hp|exact Ha]|exact Hab]. }
   cbn [occn].
   assert (SYM : (is_sym s = true /\ p = s) <-> (is_sym s = true /\ q = s)).
   { split; intros [Hs ->]; (split; [exact Hs|]).
